@@ -254,7 +254,9 @@ ConnectBegin(l, d, fault, via) ==
         /\ IF e \in {"svc", "smem", "swrite", "hs"} THEN via \in DirectUp(d, up) ELSE via = "-"
         /\ IF e = "hs"
            THEN /\ circ' = [circ EXCEPT ![s] = @ + 1, ![d] = @ + 1]
-                /\ tagH' = [tagH EXCEPT ![s] = TRUE, ![d] = TRUE]
+                \* addConn tags only on the transition 0 -> 1 (a peer the conn manager forgot while an
+                \* attempt of it was still pending stays untagged)
+                /\ tagH' = [p \in Peers |-> IF p \in {s, d} /\ circ[p] = 0 THEN TRUE ELSE tagH[p]]
                 /\ svc' = [spans |-> svc.spans + 1, msgs |-> svc.msgs + 2, sin |-> svc.sin + 1, sout |-> svc.sout + 1]
                 /\ att' = [att EXCEPT ![c] = [Free EXCEPT !.st = "hs", !.src = l, !.dst = d, !.via = via, !.t = HSTimeout]]
            ELSE \* every other exit rolls back whatever it had taken (span, memory, counters, tags)
